@@ -86,7 +86,7 @@ Proof.
     by (vm_compute; reflexivity).
   split; [exact E|].
   destruct a_hyps as (H1 & H2 & H3 & H4 & H5).
-  destruct (static_switch_fwd true a_defs a_names a_ns H1 H2 H3 H4 H5 3 _ _ _ ltac:(lia) E) as [n' [E' [->|[C _]]]]; [exact E'|discriminate C].
+  destruct (static_switch_fwd true a_defs a_names a_ns H1 H2 H4 H5 3 _ _ _ ltac:(lia) E) as [n' [E' [->|[C _]]]]; [exact E'|discriminate C].
 Qed.
 
 (* ---------- F73: a constant named pc ---------- *)
